@@ -23,7 +23,7 @@ SAMPLE_RATE = {"quick": 0.03, "thorough": 0.003}
 CHUNK = 32
 STUBS = ["socket.socket in pyairtouch.comms.discovery -> inert stub (options/bind recorded)", "loop.create_datagram_endpoint -> stub transport recording sendto(); datagrams delivered by the harness",
          "asyncio.open_connection -> FakeNet (to observe host/port of the returned clients)", "loop -> VLoop"]
-OUTSIDE = ["real UDP broadcast and the OS socket", "template parts longer than the stated number of free bytes", "fully free datagrams longer than the stated bound",
+OUTSIDE = ["real UDP broadcast and the OS socket", "template parts longer than the stated number of free bytes", "fully free datagrams longer than the stated bound, or containing the generation's tag between commas (covered by the template instances)",
            "a datagram arriving at exactly a request instant (tie)"]
 ASSUMPTIONS = ["response format per the vendor documents: AT4 '[IP],[MAC],AirTouch4,[ID]'; AT5 '[IP],[ConsoleID],AirTouch5,[AirTouch ID],[Device Name]' (name may contain commas)"]
 
@@ -31,12 +31,12 @@ REQ = {4: (b"HF-A11ASSISTHREAD", 49004), 5: (b"::REQUEST-POLYAIRE-AIRTOUCH-DEVIC
 
 
 def bounds(tier):
-    return {"part_bytes": 2 if tier == "quick" else 3, "free_datagram_bytes": 5 if tier == "quick" else 8, "arrival": "[0,1.6] symbolic"}
+    return {"part_bytes": 2 if tier == "quick" else 4, "free_datagram_bytes": 5 if tier == "quick" else [6, 8, 10, 12, 14, 16, 20], "arrival": "[0,1.6] symbolic"}
 
 
 def instances(tier):
     out = []
-    nb = 2 if tier == "quick" else 3
+    nb = 2 if tier == "quick" else 4
     for g in (4, 5):
         out.append({"kind": "silent", "gen": g, "unicast": False})
         out.append({"kind": "silent", "gen": g, "unicast": True})
@@ -45,7 +45,11 @@ def instances(tier):
         out.append({"kind": "timing", "gen": g})
         out.append({"kind": "duplicate", "gen": g})
         out.append({"kind": "others", "gen": g})
-        out.append({"kind": "free", "gen": g, "n": 5 if tier == "quick" else 8})
+        for n in ([5] if tier == "quick" else [6, 8, 10, 12, 14, 16, 20]):
+            out.append({"kind": "free", "gen": g, "n": n})
+        if tier == "thorough":
+            out.append({"kind": "template", "gen": g, "free": 3, "which": "ids"})
+            out.append({"kind": "template", "gen": g, "free": 3, "which": "name"})
     out.append({"kind": "both", "gen": 0})
     return out
 
@@ -249,6 +253,11 @@ def run(ctx, p):
             datagrams.append((g, cands[k], 0.25, None))
         elif kind == "free":
             items = [ctx.byte(f"f{i}") for i in range(p["n"])]
+            # long enough free datagrams can be genuine responses (",,AirTouch4," is one, with empty fields): those that carry
+            # the generation's tag between commas belong to the template instances and are excluded here
+            tag = [0x2C] + list(b"AirTouch%d" % g) + [0x2C]
+            for off in range(0, p["n"] - len(tag) + 1):
+                ctx.assume(sym_not(sym_and(*[items[off + i] == tag[i] for i in range(len(tag))])))
             datagrams.append((g, items, 0.25, None))
         elif kind == "both":
             datagrams.append((4, list(b"10.0.0.4,M4,AirTouch4,44"), 0.2, ({"host": list(b"10.0.0.4"), "serial": list(b"M4"), "airtouch_id": list(b"44")}, True)))
